@@ -12,9 +12,9 @@
 (* to the canvas may be blended onto it as they are), "transparency" = the     *)
 (* repaired encoder (libwebp's IncreaseTransparency: such pixels are made      *)
 (* transparent in the sub-frame first), "exact" = a stricter blend test.       *)
-EXTENDS Canvas, TLC, Json
+EXTENDS Canvas, TLC, Json, SequencesExt
 
-CONSTANTS CW, CH, MAXF, KMAX, PIXTOKS, BLENDRULE, GEN
+CONSTANTS CW, CH, MAXF, KMAX, PIXTOKS, BLENDRULE, GEN, DIRECTED
 
 \* pixel tokens -> pixel values (the driver uses the same table)
 PIX(t) == CASE t = 0 -> <<0, 0, 0, 0>>          \* transparent black
@@ -29,8 +29,9 @@ Pictures == [Pos -> PIXTOKS]
 Blank == [p \in Pos |-> Transparent]
 Val(pic) == [p \in Pos |-> PIX(pic[p])]
 
-VARIABLES nf, target, shown, prevRect, since, lastEmit, hist, ltok
-vars == <<nf, target, shown, prevRect, since, lastEmit, hist, ltok>>
+VARIABLES nf, target, shown, prevRect, since, lastEmit, hist, ltok, marks
+vars == <<nf, target, shown, prevRect, since, lastEmit, hist, ltok, marks>>
+\* marks   : (generation only) decision-rich situations the history went through, for coverage-directed selection
 \* target  : the picture the caller added last (AnimEncoder.prevCanvas), as pixel values
 \* shown   : what the container semantics display after the frames emitted so far
 \* prevRect: <<x0, y0, x1, y1>> (half open) of the last emitted frame (AnimEncoder.prevFrameRect)
@@ -70,6 +71,18 @@ DisposeBG(cv, r) == [p \in Pos |-> IF InR(p, r) THEN Transparent ELSE cv[p]]
 
 Key(cur) == /\ shown' = cur /\ prevRect' = FullRect /\ since' = 0 /\ lastEmit' = "key"
 
+\* situations in which the two dispose candidates of a sub-frame really differ: the DISPOSE_BACKGROUND candidate has a
+\* proper sub-rectangle and (a) another blend mode than the DISPOSE_NONE candidate, (b) another rectangle, (c) a blended
+\* sub-image in which an unchanged non-opaque pixel was made transparent
+Marks(cur) ==
+  IF nf = 0 \/ cur = target \/ since + 1 >= KMAX THEN {}
+  ELSE LET rN == SubRect(target, cur)  bN == BlendPossible(target, cur, rN)
+           dB == DisposeBG(target, prevRect)
+           rB == SubRect(dB, cur)  bB == BlendPossible(dB, cur, rB)
+       IN IF rB = FullRect THEN {}
+          ELSE (IF bN # bB THEN {"blend-mode-differs"} ELSE {})
+               \cup (IF rN # rB THEN {"rectangle-differs"} ELSE {})
+               \cup (IF bB /\ SubImage(dB, cur, TRUE) # cur THEN {"transparency-increased"} ELSE {})
 AddFrame(tok) ==
   LET cur == Val(tok) IN
   /\ nf < MAXF
@@ -89,11 +102,12 @@ AddFrame(tok) ==
                       /\ prevRect' = r /\ since' = since + 1
                       /\ lastEmit' = IF blend THEN "blend" ELSE "noblend"
   /\ target' = cur
+  /\ marks' = IF GEN THEN marks \cup Marks(cur) ELSE marks
   /\ nf' = nf + 1
   /\ hist' = IF GEN THEN Append(hist, tok) ELSE hist
   /\ ltok' = IF GEN THEN tok ELSE ltok
 
-Init == nf = 0 /\ target = Blank /\ shown = Blank /\ prevRect = FullRect /\ since = 0 /\ lastEmit = "none" /\ hist = <<>> /\ ltok = [p \in Pos |-> 0]
+Init == marks = {} /\ nf = 0 /\ target = Blank /\ shown = Blank /\ prevRect = FullRect /\ since = 0 /\ lastEmit = "none" /\ hist = <<>> /\ ltok = [p \in Pos |-> 0]
 \* generation alphabet: the next picture is an edit of the previous one (nothing, one pixel, a filled
 \* rectangle, everything) - the picture space itself is far too large to enumerate beyond tiny canvases
 Rects == {r \in (0..(CW - 1)) \X (0..(CH - 1)) \X (1..CW) \X (1..CH) : r[1] < r[3] /\ r[2] < r[4]}
@@ -110,5 +124,5 @@ PlaybackExact == nf > 0 => SamePic(shown, target)
 \* the rectangle always lies in the canvas and has even offsets (container: offsets are stored halved)
 RectOK == prevRect[1] % 2 = 0 /\ prevRect[2] % 2 = 0 /\ prevRect[1] >= 0 /\ prevRect[3] <= CW /\ prevRect[4] <= CH
           /\ prevRect[1] < prevRect[3] /\ prevRect[2] < prevRect[4]
-Emit == (GEN /\ nf = MAXF) => PrintT(<<"CASE", ToJson([cw |-> CW, ch |-> CH, pics |-> [i \in 1..Len(hist) |-> [k \in 1..(CW * CH) |-> hist[i][<<(k - 1) % CW, (k - 1) \div CW>>]]]])>>)
+Emit == (GEN /\ nf = MAXF /\ (~DIRECTED \/ "blend-mode-differs" \in marks)) => PrintT(<<"CASE", ToJson([cw |-> CW, ch |-> CH, marks |-> SetToSeq(marks), pics |-> [i \in 1..Len(hist) |-> [k \in 1..(CW * CH) |-> hist[i][<<(k - 1) % CW, (k - 1) \div CW>>]]]])>>)
 =============================================================================
